@@ -14,7 +14,7 @@ pub mod q3 {
       r2(v0, v1) <-- r2(v0, v1), r2(v0, v0), r2(v1, v2);
       r2(v0, v1) <-- for v9 in 0..4, r2(v0, v1), r2(v9, v1);
       r2(3, 2);
-      r2(v1, v0) <-- if let Some(v0) = Some(2), r0(v0), r0(v1) if (v0 <= 4);
+      r2(v1, v0) <-- if let Some(v0) = Some(2), r0(v0), r0(v1) if (v0 <= 4), if (v0 <= 6);
       r2(v1, v1) <-- r2(v0, v1), r1(v0), if ((*v0) <= 5);
       r0(v1) <-- if let Some(v0) = Some(4), r2(v0, v1), r1(3), for v2 in 1..1;
    }
@@ -55,7 +55,7 @@ pub mod q7 {
       relation r2(i64, i64, i64);
       relation r3(i64, i64, i64);
       r2((v0 + 1), 1, (v0 + 1)) <-- if let Some(v0) = Some(1), r1(2, v0), if (v0 < 6), if (v0 < 6);
-      r2(v0, v2, ((*v0) + 1)) <-- r2(0, 1, v0), r2(3, ((*v0) + 1), ((*v0) + 1)) if ((*v0) <= 5) let v1 = ((*v0) + 0), let v2 = (*v0), if ((*v0) < 6);
+      r2(v0, v2, ((*v0) + 1)) <-- r2(0, 1, v0), r2(3, ((*v0) + 1), ((*v0) + 1)) if ((*v0) <= 5) let v1 = ((*v0) + 0), let v2 = (*v0), if (v2 <= 6), if ((*v0) < 6);
       r3(v0, v1, v9) <-- let v9 = 0, r0(v0, v1), r1(v1, v9);
       r3(((*v0) + 1), v3, 1) <-- r3(v0, v1, v2) if ((*v2) <= 3), r3(v1, v3, v1), r3(v1, v4, 3), for v5 in [2, 4, 4], if ((*v0) < 6);
       r2(v1, v0, v2) <-- r2(v0, v1, v2);
@@ -102,7 +102,7 @@ pub mod q11 {
       r2(v0, v2) <-- r2(v0, v1), r0(v1, v2), r3(v2, v3);
       r3(0, 3);
       r2(v0, v1) <-- r3(v0, v1), r2(v2, v1), r0(v1, v3), for v4 in 2..3;
-      r2(v0, 3) <-- if let Some(v0) = None::<i64>;
+      r2(v0, 3) <-- if let Some(v0) = None::<i64>, if (v0 <= 6);
       r2(2, v1) <-- r2(v0, v1), if ((*v1) < 4);
    }
    pub struct Inst { p: Prog, pool: Option<ascent::rayon::ThreadPool> }
